@@ -19,9 +19,9 @@ theorem reverseLoop_spec (xs : List Nat) : ∀ (k i : Nat) (l : Chain) (left rig
     RevInv xs i l → i + k = xs.length / 2 →
     (0 < k → left = some i ∧ right = some (xs.length - 1 - i)) →
     ∃ l', reverseLoop k l left right ho to m = (l', mir xs.length i k ho, mir xs.length i k to, m) ∧
-      RevInv xs (i + k) l' ∧ l'.size = l.size
+      RevInv xs (i + k) l' ∧ l'.size = l.size ∧ l'.triple = l.triple
   | 0, i, l, left, right, ho, to, m, hinv, _, _ => by
-    refine ⟨l, ?_, hinv, rfl⟩
+    refine ⟨l, ?_, hinv, rfl, rfl⟩
     have e : ∀ q, mir xs.length i 0 q = q := by
       intro q; cases q with
       | none => rfl
@@ -49,7 +49,7 @@ theorem reverseLoop_spec (xs : List Nat) : ∀ (k i : Nat) (l : Chain) (left rig
             by_cases c3 : (i + 1 ≤ p ∧ p < i + 1 + k) ∨ (xs.length - (i + 1) - k ≤ p ∧ p < xs.length - (i + 1))
             · rw [if_pos c3, if_pos (by omega)]
             · rw [if_neg c3, if_neg (by omega)]
-    obtain ⟨l', e, hinv', hs⟩ := reverseLoop_spec xs k (i + 1) (l.swapNodes i (xs.length - 1 - i))
+    obtain ⟨l', e, hinv', hs, htr⟩ := reverseLoop_spec xs k (i + 1) (l.swapNodes i (xs.length - 1 - i))
       ((Ptr.next xs.length (some i)).swapPtr i (xs.length - 1 - i))
       ((Ptr.prev (some (xs.length - 1 - i))).swapPtr i (xs.length - 1 - i))
       (ho.swapPtr i (xs.length - 1 - i)) (to.swapPtr i (xs.length - 1 - i)) m
@@ -82,11 +82,11 @@ theorem reverseLoop_spec (xs : List Nat) : ∀ (k i : Nat) (l : Chain) (left rig
         rw [if_neg (by omega), if_neg (by omega), if_neg (by omega), if_neg (by omega)]
         constructor <;> congr 1 <;> omega)
     rw [hsw, hsw] at e
-    refine ⟨l', e, ?_, by rw [hs]; rfl⟩
+    refine ⟨l', e, ?_, by rw [hs]; rfl, by rw [htr]; rfl⟩
     have : i + 1 + k = i + (k + 1) := by omega
     rw [← this]; exact hinv'
 
-theorem reverse_ofList (xs : List Nat) (m : Mem) : reverse (ofList xs) m = (ofList xs.reverse, m) := by
+theorem reverse_ofList (xs : List Nat) (m : Mem) : reverse (ofList t xs) m = (ofList t xs.reverse, m) := by
   unfold reverse
   by_cases h : xs.length < 2
   · have : xs.reverse = xs := by
@@ -101,8 +101,8 @@ theorem reverse_ofList (xs : List Nat) (m : Mem) : reverse (ofList xs) m = (ofLi
       simp only [ofList_size, Bool.or_eq_true]
       intro hc; rcases hc with hc | hc <;> (have := of_decide_eq_true hc; omega))]
     simp only [ofList_size]
-    obtain ⟨l', e, hinv, hs⟩ := reverseLoop_spec xs (xs.length / 2) 0 (ofList xs) (ofList xs).head (ofList xs).tail
-      (ofList xs).head (ofList xs).tail m ⟨rfl, by intro j hj; rw [if_neg (by omega)]; rfl⟩ (by omega)
+    obtain ⟨l', e, hinv, hs, htr⟩ := reverseLoop_spec xs (xs.length / 2) 0 (ofList t xs) (ofList t xs).head (ofList t xs).tail
+      (ofList t xs).head (ofList t xs).tail m ⟨rfl, by intro j hj; rw [if_neg (by omega)]; rfl⟩ (by omega)
       (by intro _; simp [ofList, h0])
     rw [e]
     have hnodes : l'.nodes = xs.reverse := by
@@ -118,37 +118,41 @@ theorem reverse_ofList (xs : List Nat) (m : Mem) : reverse (ofList xs) m = (ofLi
       · rfl
       · congr 1; omega
     have hsz : l'.size = xs.length := by rw [hs]; rfl
-    have hh : (ofList xs).head = some 0 := by simp [ofList, h0]
-    have ht : (ofList xs).tail = some (xs.length - 1) := by simp [ofList, h0]
+    have htr' : l'.triple = t := by rw [htr]; rfl
+    have hh : (ofList t xs).head = some 0 := by simp [ofList, h0]
+    have ht : (ofList t xs).tail = some (xs.length - 1) := by simp [ofList, h0]
     have m1 : mir xs.length 0 (xs.length / 2) (some (xs.length - 1)) = some 0 := by
       simp only [mir]; rw [if_pos (by omega)]; congr 1; omega
     have m2 : mir xs.length 0 (xs.length / 2) (some 0) = some (xs.length - 1) := by
       simp only [mir]; rw [if_pos (by omega)]; congr 1
     rw [hh, ht, m1, m2]
     cases l'
-    simp only [ofList, List.length_reverse, h0, if_false] at hnodes hsz ⊢
-    simp [hnodes, hsz]
+    simp only [ofList, List.length_reverse, h0, if_false] at hnodes hsz htr' ⊢
+    simp [hnodes, hsz, htr']
 
 theorem toArray_ofList (xs : List Nat) (m : Mem) :
-    toArray (ofList xs) m =
+    toArray (ofList t xs) m =
       if (LSeq.toArray false xs).1 = .ok then
-        (if m.alloc.1 then (.ok, (LSeq.toArray false xs).2, m.alloc.2) else (.errAlloc, none, m.alloc.2))
+        (if (m.allocT t).1 then (.ok, (LSeq.toArray false xs).2, (m.allocT t).2) else (.errAlloc, none, (m.allocT t).2))
       else ((LSeq.toArray false xs).1, none, m) := by
   unfold toArray LSeq.toArray
   cases xs with
   | nil => simp
   | cons y ys =>
     simp only [ofList_size, List.length_cons, Nat.add_one_ne_zero, if_false]
-    cases ha : m.alloc.1
-    · simp
-    · rw [ofList_head_ptrAt, collect_ofList _ _ _ 0 (by simp)]
+    simp only [ofList_triple]
+    by_cases ha : (m.allocT t).1 = true
+    case neg => simp [ha]
+    case pos =>
+      simp only [ha, Bool.not_true, Bool.false_eq_true, if_false, if_true]
+      rw [ofList_head_ptrAt, collect_ofList _ _ _ 0 (by simp)]
       simp
 
 theorem sort_ofList (sortFn : List Nat → List Nat) (hlen : ∀ l, (sortFn l).length = l.length) (xs : List Nat) (m : Mem) :
-    sort sortFn (ofList xs) m =
+    sort sortFn (ofList t xs) m =
       if (LSeq.sort false sortFn xs).1 = .ok then
-        (if m.alloc.1 then (.ok, ofList (LSeq.sort false sortFn xs).2, m.alloc.2.free) else (.errAlloc, ofList xs, m.alloc.2))
-      else ((LSeq.sort false sortFn xs).1, ofList xs, m) := by
+        (if (m.allocT t).1 then (.ok, ofList t (LSeq.sort false sortFn xs).2, ((m.allocT t).2.freeT t)) else (.errAlloc, ofList t xs, (m.allocT t).2))
+      else ((LSeq.sort false sortFn xs).1, ofList t xs, m) := by
   unfold sort
   rw [toArray_ofList]
   unfold LSeq.toArray LSeq.sort
@@ -156,12 +160,14 @@ theorem sort_ofList (sortFn : List Nat → List Nat) (hlen : ∀ l, (sortFn l).l
   | nil => simp
   | cons y ys =>
     simp only [reduceCtorEq, false_and, if_false, if_true]
-    cases ha : m.alloc.1
-    · simp
-    · simp only [if_true, ofList_size]
+    simp only [ofList_triple]
+    by_cases ha : (m.allocT t).1 = true
+    case neg => simp [ha]
+    case pos =>
+      simp only [ha, if_true, ofList_size]
       rw [ofList_head_ptrAt]
-      obtain ⟨l', e, h1, h2, h3, h4, h5⟩ := writeBack_spec (y :: ys).length (sortFn (y :: ys)) m.alloc.2
-        (y :: ys).length 0 (ofList (y :: ys)) rfl (by omega) (by rw [hlen]; exact Nat.le_refl _)
+      obtain ⟨l', e, h1, h2, h3, h4, h5, h6⟩ := writeBack_spec (y :: ys).length (sortFn (y :: ys)) (m.allocT t).2
+        (y :: ys).length 0 (ofList t (y :: ys)) rfl (by omega) (by rw [hlen]; exact Nat.le_refl _)
       rw [e]
       have hnodes : l'.nodes = sortFn (y :: ys) := by
         apply ext_getD (by rw [h1, hlen])
@@ -170,9 +176,9 @@ theorem sort_ofList (sortFn : List Nat → List Nat) (hlen : ∀ l, (sortFn l).l
         rw [h2 j hj, if_pos (by omega)]
       cases l'
       simp only [ofList, hlen] at *
-      simp [hnodes, h3, h4, h5]
+      simp [hnodes, h3, h4, h5, h6]
 theorem reduce_ofList (f : Nat → Nat → Nat) (xs : List Nat) (m : Mem) :
-    reduce f (ofList xs) m = ((LSeq.reduce f xs).1, (LSeq.reduce f xs).2.1, (LSeq.reduce f xs).2.2, m) := by
+    reduce f (ofList t xs) m = ((LSeq.reduce f xs).1, (LSeq.reduce f xs).2.1, (LSeq.reduce f xs).2.2, m) := by
   unfold reduce
   match xs with
   | [] => simp [LSeq.reduce]
@@ -188,8 +194,8 @@ theorem eraseIdx_append_cons (kept : List Nat) (y : Nat) (ys : List Nat) :
   | cons k ks ih => simp [ih]
 
 theorem filterMutLoop_ofList (p : Nat → Bool) : ∀ (rest kept : List Nat) (k : Nat) (m : Mem), rest.length ≤ k →
-    filterMutLoop p k (ofList (kept ++ rest)) (ptrAt (kept.length + rest.length) kept.length) m =
-      (ofList (kept ++ rest.filter p), Mem.freeN (rest.length - (rest.filter p).length) m)
+    filterMutLoop p k (ofList t (kept ++ rest)) (ptrAt (kept.length + rest.length) kept.length) m =
+      (ofList t (kept ++ rest.filter p), Mem.freeN t (rest.length - (rest.filter p).length) m)
   | [], kept, k, m, _ => by
     cases k <;> simp [filterMutLoop, ptrAt, Mem.freeN]
   | y :: ys, kept, 0, m, h => by simp at h
@@ -217,22 +223,22 @@ theorem filterMutLoop_ofList (p : Nat → Bool) : ∀ (rest kept : List Nat) (k 
         by_cases c : kept.length + 1 < kept.length + (ys.length + 1)
         · rw [if_pos c, if_pos (by omega)]; simp [Ptr.shiftDel]
         · rw [if_neg c, if_neg (by omega)]; rfl
-      rw [e1, eraseIdx_append_cons, filterMutLoop_ofList p ys kept k m.free (by simpa using h)]
+      rw [e1, eraseIdx_append_cons, filterMutLoop_ofList p ys kept k (m.freeT t) (by simpa using h)]
       have hle : (ys.filter p).length ≤ ys.length := List.length_filter_le _ _
       simp only [List.filter_cons, hp, Bool.false_eq_true, if_false, List.length_cons]
       rw [show ys.length + 1 - (List.filter p ys).length = (ys.length - (List.filter p ys).length) + 1 by omega]
       simp [Mem.freeN]
 
 theorem filterMut_ofList (p : Nat → Bool) (xs : List Nat) (m : Mem) :
-    filterMut p (ofList xs) m =
-      ((LSeq.filterMut p xs).1, ofList (LSeq.filterMut p xs).2, Mem.freeN (xs.length - (xs.filter p).length) m) := by
+    filterMut p (ofList t xs) m =
+      ((LSeq.filterMut p xs).1, ofList t (LSeq.filterMut p xs).2, Mem.freeN t (xs.length - (xs.filter p).length) m) := by
   unfold filterMut LSeq.filterMut
   cases xs with
   | nil => simp [Mem.freeN]
   | cons y ys =>
     simp only [ofList_size, List.length_cons, Nat.add_one_ne_zero, if_false, ofList_nodes, reduceCtorEq]
     rw [ofList_head_ptrAt]
-    have := filterMutLoop_ofList p (y :: ys) [] (ys.length + 1) m (by simp)
+    have := filterMutLoop_ofList (t := t) p (y :: ys) [] (ys.length + 1) m (by simp)
     simp only [List.nil_append, List.length_nil, Nat.zero_add, List.length_cons] at this ⊢
     rw [this]
 
